@@ -311,6 +311,15 @@ impl<T> WriteStream<T> {
     }
 }
 
+#[cfg(feature = "verif")]
+impl<T> NCWriteStream<T> {
+    /// Number of queued packets.
+    #[must_use]
+    pub fn verif_len(&self) -> usize {
+        self.q.0.lock().unwrap().len()
+    }
+}
+
 /// Create a stream as directed by the verification plan.
 ///
 /// The stream can be small, and can have seen traffic already: `offset`
